@@ -121,3 +121,12 @@ def m_c01_nonascii_columns(f, rec):
     """the trees are equal once the implementation's character columns are converted to UTF-8 byte
     columns (computed by the worker on the whole tree: detail.eq_after_bytecols)"""
     return rec["clause"] == "span" and (rec.get("detail") or {}).get("eq_after_bytecols") is True and not rec["case"]["src"].isascii()
+
+
+def m_c04_starred_glued(f, rec):
+    d = rec.get("detail") or {}
+    msg = ((d.get("compile_exc") or {}).get("msg") or "")
+    if not rec["clause"].startswith("compile_") or "starred expression" not in msg:
+        return False
+    src = rec["case"]["src"]
+    return bool(re.search(r"[^\s(\[]@\$?\(", src) or re.search(r"@\$?\([^()]*(\([^()]*\)[^()]*)*\)[^\s)\]]", src))
